@@ -2,7 +2,13 @@ import TwistedModel.Inline.Machine
 /-!
 The driver of C05: a transcription of, from `src/twisted/internet/defer.py`,
 
-  * `_inlineCallbacks` (the `while 1:` loop: `gen.send` / `throwExceptionIntoGenerator`;
+  * `Deferred.__iter__` / `__await__` (what `await d` in a coroutine runs BEFORE `_inlineCallbacks` sees anything:
+    `result = getattr(self, "result", _NO_RESULT)`; no result → `yield self` (the Deferred reaches
+    `_inlineCallbacks` exactly as a generator's `yield d` does); a result →
+    `if isinstance(result, Failure): result.raiseException() else: return result` — the coroutine goes on
+    WITHOUT `_inlineCallbacks` being involved and the Deferred KEEPS its result)  → `runGen`, case `awaitC`
+  * `_inlineCallbacks` (the `while 1:` loop: `isFailure = isinstance(result, Failure)` →
+    `gen.send` / `throwExceptionIntoGenerator`;
     `StopIteration` → `status.deferred.callback`, other exception → `status.deferred.errback()`;
     a yielded non-Deferred is sent straight back; a yielded generator/coroutine is wrapped with
     `_cancellableInlineCallbacks`; a yielded Deferred gets `addBoth(_gotResultInlineCallbacks, …)` and
@@ -14,6 +20,11 @@ The driver of C05: a transcription of, from `src/twisted/internet/defer.py`,
   * `Deferred.cancel` on the returned Deferred → its canceller `_addCancelCallbackToDeferred` →
     `_handleCancelInlineCallbacks` (`status.deferred` replaced, `status.waitingOn.cancel()`)  → `cancel`
   * `Deferred.callback/errback/_startRunCallbacks/cancel` for the awaited Deferreds → `fire`, `cancelD`
+
+The object a Deferred is fired with is a `Res`: a value, or a failure that remembers HOW it was given
+(`FCls`: a `Failure`, an instance of a SUBCLASS of `Failure` such as `pb.CopiedFailure`, a bare exception
+that `errback` wraps, a `Failure` passed to `callback`).  Both places that turn it into what the function
+sees test `isinstance(result, Failure)`, which holds for every `FCls` — `Res.outcome`.
 
 over a small Deferred model: the awaited Deferreds are records (`AwD`); the Deferreds *created by*
 `_cancellableInlineCallbacks` are not records: because a function waits for one thing at a time, the
@@ -27,12 +38,39 @@ they are wrong; the tie runs the real ones).  PARTIAL in that sense, see Twisted
 namespace Twisted.Inline.Driver
 open Twisted.Inline
 
+/-- how a failure is handed to a Deferred -/
+inductive FCls where
+  | plain                -- `d.errback(Failure(e))`
+  | sub                  -- `d.errback(SubFailure(e))`, `class SubFailure(Failure)`
+  | raw                  -- `d.errback(e)`: `errback` wraps it, `Failure(e)`
+  | viaCallback          -- `d.callback(Failure(e))`: `_runCallbacks` treats a Failure result as a failure
+  deriving Repr, DecidableEq
+
+/-- the object a Deferred is fired with / holds as `result` -/
+inductive Res where
+  | ok (v : Nat)
+  | fail (c : FCls) (e : Exc)
+  deriving Repr, DecidableEq
+
+/-- `isinstance(result, Failure)`: true for an instance of `Failure` AND of any subclass (after `errback`'s own
+    wrapping of a bare exception) -/
+def Res.isFailure : Res → Bool
+  | .ok _ => false
+  | .fail _ _ => true
+
+/-- what the function gets for a result: `isinstance(result, Failure)` → the exception is raised in it
+    (`throwExceptionIntoGenerator` in `_inlineCallbacks`, `raiseException` in `Deferred.__iter__`), else the
+    value is returned to it (`gen.send` / `return result`).  The failure class plays no role. -/
+def Res.outcome : Res → Outcome
+  | .ok v => .val v
+  | .fail _ e => .exc e
+
 /-- the `canceller` of an awaited Deferred -/
 inductive Canc where
   | none                 -- no canceller
   | noop                 -- returns without firing
   | firesOk (v : Nat)    -- calls `d.callback(v)`
-  | firesErr (n : Nat)   -- calls `d.errback(UserError(n))`
+  | firesErr (c : FCls) (e : Exc)   -- calls `d.errback(…)` / `d.callback(Failure(…))` as `c` says
   deriving Repr, DecidableEq
 
 /-- an awaited Deferred -/
@@ -41,8 +79,9 @@ structure AwD where
   suppress : Bool := false             -- `_suppressAlreadyCalled`
   canc : Canc := .none                 -- `_canceller` (cleared when fired)
   cancelCalls : Nat := 0               -- observation: number of `cancel()` calls received
-  result : Option Outcome := none      -- the `result` attribute while it holds an outcome nobody consumed
-  delivered : Option Outcome := none   -- observation: the outcome `_startRunCallbacks` accepted
+  result : Option Res := none          -- the `result` attribute while it holds an object nobody consumed
+  delivered : Option Outcome := none   -- observation: the outcome `_startRunCallbacks` accepted (a pass-through
+                                       -- callback classifies it: `isinstance(r, Failure)` → the exception, else the value)
   deriving Repr, DecidableEq
 
 /-- timeline for the tie: log entries interleaved with event markers -/
@@ -86,12 +125,28 @@ def runGen : Gen → State → State × Susp
     let i := s.next
     let d := s.ds i
     match d.result with
-    | some o =>
+    | some r =>
       -- `addBoth` runs `_gotResultInlineCallbacks` at once: `waiting[0]` is True → `waiting[1] = r`,
-      -- the callback returns None (the Deferred's result is consumed), the loop continues
-      runGen (k o) { (s.setD i { d with result := none }) with next := i + 1 }
+      -- the callback returns None (the Deferred's result is consumed), the loop continues:
+      -- `isinstance(result, Failure)` → throw, else send
+      runGen (k r.outcome) { (s.setD i { d with result := none }) with next := i + 1 }
     | none =>
       -- no result yet: `waiting[0] = False; status.waitingOn = result; return`
+      ({ s with next := i + 1, waitingOn := some i }, .suspended [k])
+  | .awaitC k, s =>
+    -- `Deferred.__iter__` inside the coroutine
+    let i := s.next
+    let d := s.ds i
+    match d.result with
+    | some r =>
+      -- `if isinstance(result, Failure): result.raiseException() else: return result`: the coroutine goes on,
+      -- `_inlineCallbacks` sees nothing, the Deferred keeps its result
+      runGen (k r.outcome) { s with next := i + 1 }
+    | none =>
+      -- `yield self` → `_inlineCallbacks` gets a Deferred without result (as above): the coroutine is suspended
+      -- inside `__iter__`.  `gen.throw(e)` later raises out of `__iter__`; `gen.send(v)` makes `__iter__` loop and
+      -- re-read `self.result`, which during `_runCallbacks` still is the object being delivered — the model
+      -- hands the coroutine the outcome directly
       ({ s with next := i + 1, waitingOn := some i }, .suspended [k])
   | .call inner k, s =>
     -- `result = _cancellableInlineCallbacks(result)`: the nested generator runs now
@@ -109,22 +164,22 @@ def unwind : List (Outcome → Gen) → Outcome → State → State
     | (s', .suspended fs) => { s' with stack := fs ++ rest }
 
 /-- `_cancellableInlineCallbacks(gen)` + `addBoth(observer)` -/
-def start (p : Stmt) (s : State) : State :=
-  unwind [fun _ => gen p] (.val 0) (s.mark .start)
+def start (coro : Bool) (p : Stmt) (s : State) : State :=
+  unwind [fun _ => gen coro p] (.val 0) (s.mark .start)
 
-/-- `D[i].callback(v)` / `D[i].errback(f)`; `true` = raised `AlreadyCalledError` -/
-def fire (s : State) (i : Nat) (o : Outcome) : State × Bool :=
+/-- `D[i].callback(v)` / `D[i].errback(f)` / `D[i].callback(f)`; `true` = raised `AlreadyCalledError` -/
+def fire (s : State) (i : Nat) (r : Res) : State × Bool :=
   let d := s.ds i
   if d.called then
     if d.suppress then (s.setD i { d with suppress := false }, false) else (s, true)
   else
-    let d' := { d with called := true, canc := .none, delivered := some o }
+    let d' := { d with called := true, canc := .none, delivered := some r.outcome }
     if !s.stack.isEmpty && s.waitingOn == some i then
-      -- `callbacks == [_gotResultInlineCallbacks]`, `waiting[0]` False → `_inlineCallbacks(r, gen, status)`;
-      -- the callback returns None
-      (unwind s.stack o (s.setD i { d' with result := none }), false)
+      -- `callbacks == [_gotResultInlineCallbacks]`, `waiting[0]` False → `_inlineCallbacks(r, gen, status)`:
+      -- `isinstance(result, Failure)` → throw, else send; the callback returns None
+      (unwind s.stack r.outcome (s.setD i { d' with result := none }), false)
     else
-      (s.setD i { d' with result := some o }, false)
+      (s.setD i { d' with result := some r }, false)
 
 /-- observation: `D[i].cancel()` was called -/
 def bumpCancel (s : State) (i : Nat) : State :=
@@ -135,8 +190,8 @@ def callCanceller (s : State) (i : Nat) : State :=
   match (s.ds i).canc with
   | .none => s.setD i { s.ds i with suppress := true }
   | .noop => s
-  | .firesOk v => (fire s i (.val v)).1
-  | .firesErr n => (fire s i (.exc (.user n))).1
+  | .firesOk v => (fire s i (.ok v)).1
+  | .firesErr c e => (fire s i (.fail c e)).1
 
 /-- `D[i].cancel()` -/
 def cancelD (s : State) (i : Nat) : State :=
@@ -145,7 +200,7 @@ def cancelD (s : State) (i : Nat) : State :=
   else
     let s1 := callCanceller s0 i
     -- `if not self.called: self.errback(Failure(CancelledError()))`
-    if !(s1.ds i).called then (fire s1 i (.exc .cancelled)).1 else s1
+    if !(s1.ds i).called then (fire s1 i (.fail .plain .cancelled)).1 else s1
 
 /-- `cancel()` on the Deferred returned by `inlineCallbacks` / `ensureDeferred` -/
 def cancel (s : State) : State :=
@@ -159,13 +214,13 @@ def cancel (s : State) : State :=
     | none => s
 
 inductive Event where
-  | fire (i : Nat) (o : Outcome)
+  | fire (i : Nat) (r : Res)
   | cancel
   deriving Repr, DecidableEq
 
 def step (s : State) : Event → State
-  | .fire i o =>
-    match fire (s.mark (.fire i)) i o with
+  | .fire i r =>
+    match fire (s.mark (.fire i)) i r with
     | (s', true) => s'.mark .already
     | (s', false) => s'
   | .cancel => cancel (s.mark .cancel)
@@ -174,7 +229,7 @@ def init (specs : List Canc) : State :=
   { ds := fun i => { canc := specs.getD i .none } }
 
 /-- whole run: `pre` happens before the function is called (pre-fired Deferreds), `post` after -/
-def run (p : Stmt) (specs : List Canc) (pre post : List Event) : State :=
-  post.foldl step (start p (pre.foldl step (init specs)))
+def run (coro : Bool) (p : Stmt) (specs : List Canc) (pre post : List Event) : State :=
+  post.foldl step (start coro p (pre.foldl step (init specs)))
 
 end Twisted.Inline.Driver
